@@ -8,7 +8,7 @@
    list-of-successes function, leaf instances of E1 and the order-freeness of the specification's
    language.  The property is otherwise carried by the correspondence check
    (exhaustive small ASTs x inputs, random stream) against the extracted spec_is_match. *)
-From RX Require Import Base.Prelude Base.InvList Spec.Syntax Spec.Sem Model.Op Model.Engine Proofs.LeafFacts Model.Matcher Model.Api Proofs.EngineFacts Proofs.EngineCorollaries Proofs.LowerFacts Proofs.FragmentSpec Model.Compiler Proofs.QuantFacts Proofs.QuantLaws Proofs.FixedFacts.
+From RX Require Import Base.Prelude Base.InvList Spec.Syntax Spec.Sem Model.Op Model.Engine Proofs.LeafFacts Model.Matcher Model.Api Proofs.EngineFacts Proofs.EngineCorollaries Proofs.LowerFacts Proofs.FragmentSpec Model.Compiler Proofs.QuantFacts Proofs.QuantLaws Proofs.FixedFacts Spec.Parse Proofs.PlainPattern Proofs.PlainSpec.
 
 (* a literal character is the specification's RChar, at every position, in every context *)
 Theorem C01_literal_partial :
@@ -113,6 +113,24 @@ Proof.
   split; [exact exq_plain|]. split; [exact exq_lowers|]. split; [exact exq_wf|]. exact exq_runs.
 Qed.
 
+(* end to end from the pattern and flag strings, every stage a theorem (flag parser, pattern
+   parser, optimiser, program construction with the search shortcuts, matcher | specification
+   parser, flag reader, set semantics): on the smallest sub-grammar - non-empty patterns of
+   ordinary characters - in both dialects and under every flag string without q and x *)
+Theorem C01_ordinary_pattern_end_to_end :
+  forall xpath pat fls input,
+    forallb ordinary pat = true -> pat <> [] -> (N.of_nat (length pat) <= umax)%N ->
+    existsb (N.eqb 59) fls = false ->
+    match spec_flags xpath fls with
+    | Valid sf =>
+        s_q sf = false -> s_x sf = false ->
+        exists re r, regex_new false xpath pat fls = Ok re /\ spec_parse xpath pat = Valid r
+                     /\ is_match re input = Ok (spec_is_match sf input r)
+    | Invalid => regex_new false xpath pat fls = Err EInvalidFlags
+    | Unspecified => True
+    end.
+Proof. exact ordinary_pattern_end_to_end. Qed.
+
 Print Assumptions C01_literal_partial.
 Print Assumptions C01_class_partial.
 Print Assumptions C01_alternation_is_union.
@@ -121,3 +139,4 @@ Print Assumptions C01_fragment_is_match_partial.
 Print Assumptions C01_fragment_language_partial.
 Print Assumptions C01_fragment_ends_partial.
 Print Assumptions C01_fragment_quantified_language_partial.
+Print Assumptions C01_ordinary_pattern_end_to_end.
